@@ -176,6 +176,20 @@ def first_divergence(ops_path, real_path, model_path):
     return dict(scn={"pre": ["scn ?"], "ops": []}, op_index=-1, real="<length mismatch>", model="<length mismatch>", n_ops=0)
 
 
+def first_oracle_hit(ops_path, real_path):
+    """First observation line of the implementation carrying a direct-oracle marker, with its scenario."""
+    real = open(real_path).read().split("\n")
+    pos = 0
+    for scn in split_scenarios(ops_path):
+        obs_ops = [l for l in scn["ops"] if l.startswith(("op ", "fn ", "fnrange "))]
+        n = 1 + len(obs_ops) + 1
+        for i in range(n):
+            if pos + i < len(real) and ORACLE_RE.search(real[pos + i]):
+                return dict(scn=scn, op_index=i - 1, real=real[pos + i], line=pos + i, n_ops=len(obs_ops))
+        pos += n
+    return None
+
+
 def scenario_text(scn, upto=None, extra=()):
     """Scenario text with observing ops cut after index `upto` (inclusive)."""
     lines = list(scn["pre"])
@@ -293,6 +307,13 @@ def correspond(pid, tier, backend, gen_args, workdir, stats):
     div = first_divergence(ops, real, model)
     if div is None:
         return
+    # A direct oracle hit anywhere in the batch is a concrete failing input: prefer it to the first
+    # (possibly harmless-looking) divergence.
+    hit = first_oracle_hit(ops, real)
+    if hit is not None and not (ORACLE_RE.search(div["real"]) or "end ORACLE" in div["real"]):
+        model_lines = open(model).read().split("\n")
+        div = dict(scn=hit["scn"], op_index=hit["op_index"], real=hit["real"],
+                   model=model_lines[hit["line"]] if hit["line"] < len(model_lines) else "<missing>", n_ops=hit["n_ops"])
     scn, k = div["scn"], div["op_index"]
     head = "# property %s: implementation and model differ\n# backend=%s batch=%s\n" % (pid, backend, gen_args)
     diffnote = "# first difference at op %d of scenario '%s'\n# impl : %s\n# model: %s\n" % (
